@@ -66,9 +66,9 @@ def check(ctx):
             for c in calls_in(fn):
                 if call_name(c) in ("marshal.load", "marshal.loads"):
                     loads_seen += 1
-                    ctx.ob("R1", f"{m.rel}:{q}", "marshal.load is called only by the two cache check functions", m.rel == CC and q in CHECKS, key=f"{m.rel}:{q}|foreign-marshal-load", where=loc(c))
-    if loads_seen < 2:
-        raise AnalysisError("fewer than two marshal.load call sites found")
+                    ctx.ob("R1", f"{m.rel}:{q}", "marshal.load is called only by the two cache check functions (or a helper only they call)", m.rel == CC and (q in CHECKS or only_called_from(ctx.repo, m, q, set(CHECKS))), key=f"{m.rel}:{q}|foreign-marshal-load", where=loc(c))
+    if loads_seen < 1:
+        raise AnalysisError("no marshal.load call site found")
 
     ccv = mod.func("_check_cache_versions")
     upd = mod.func("update_cache")
@@ -120,7 +120,7 @@ def check(ctx):
     ctx.ob("R1", f"{CC}:update_cache", "the writer emits the header before marshal.dump", bool(marshal_dump) and bool(wr_calls) and all(w[0] < marshal_dump[0].lineno for w in wr_calls), key="writer-order")
 
     for q in CHECKS:
-        fn = mod.func(q)
+        fn = flat(ctx, mod.func(q), depth=2, skip=("_check_cache_versions",))
         st = f"{CC}:{q}"
         cfg = CFG(fn)
         defs = df.all_defs(fn)
@@ -141,28 +141,24 @@ def check(ctx):
             tr, h = _enclosing_try_with_handler(c, {"Exception", "BaseException"}, fn)
             ctx.ob("R1", st, f"{short(c)} is enclosed in `try: ... except Exception`", tr is not None, key=f"{q}|load-unguarded", where=loc(c))
             if tr is not None:
-                # from the handler, no return can report "use the cache"
-                hn = [n for n in cfg.nodes if n.kind == "handler" and n.ast is h]
-                seen = cfg.reach(hn)
+                # through the handler, no return can report "use the cache": decided by path enumeration with forward
+                # substitution (flags, tuples handed back by a helper and early returns all reduce to the returned value)
+                from ..engine import dtable as _dt
+
                 bad = None
-                for n in seen:
-                    if n.kind == "stmt" and isinstance(n.ast, ast.Return):
-                        v = n.ast.value
-                        first = v.elts[0] if isinstance(v, ast.Tuple) and v.elts else v
-                        if isinstance(first, ast.Constant) and first.value is False:
-                            continue
-                        if isinstance(first, ast.Name):
-                            ds = defs.get(first.id, [])
-                            consts = all(d.kind == "assign" and isinstance(d.value, ast.Constant) for d in ds)
-                            trues = [d for d in ds if d.kind == "assign" and const_value(d.value) is True]
-                            # a `= True` must not be able to precede the handler nor follow it
-                            reach_true = any(tn in seen for d in trues for tn in cfg.nodes_of(d.stmt))
-                            before = any(hh in cfg.reach(cfg.nodes_of(d.stmt)) for d in trues for hh in hn)
-                            if consts and not reach_true and not before:
-                                continue
-                        bad = n
-                        break
-                ctx.ob("R1", st, "after a failed load every return reports 'cache not used'", bad is None, key=f"{q}|handler-returns-usable", where=loc(h), path=cfg.fmt_path(cfg.path_to(seen, bad)) if bad else None)
+                n_hpaths = 0
+                for pth in _dt.simplified(_dt.paths(fn, loops="skip")):
+                    via_handler = any(isinstance(e, ast.Name) and e.id.startswith("<exception:") and ("Exception" in e.id or "any" in e.id) for e, pol in pth.conds)
+                    if not via_handler or pth.outcome != "return":
+                        continue
+                    n_hpaths += 1
+                    v = pth.value
+                    first = v.elts[0] if isinstance(v, ast.Tuple) and v.elts else v
+                    if not (isinstance(first, ast.Constant) and first.value is False):
+                        bad = pth
+                if n_hpaths == 0:
+                    raise AnalysisError(f"{st}: no return path through the unmarshal handler enumerated")
+                ctx.ob("R1", st, "after a failed load every return reports 'cache not used'", bad is None, key=f"{q}|handler-returns-usable", where=loc(h), detail=repr(bad)[:300] if bad else None)
             # ---- R3: fs calls on the cache file are inside an OSError handler
             opens = [o for o in calls_in(fn) if call_name(o) in ("open", "io.open") and o.args]
             cache_param = None
@@ -210,6 +206,12 @@ def check(ctx):
         raise AnalysisError(f"expected >= 4 users of the cache check functions, found {len(users)}")
     for m, q, fn, chk in users:
         st = f"{m.rel}:{q}"
+        # helper-transparent view (a compile-and-store tail moved into a helper is still this function's miss path)
+        fn = flat(ctx, fn, depth=2, skip=tuple(CHECKS) + ("should_use_cache", "get_cache_filename", "compile_code", "update_cache", "compile", "get_source", "print_exception"))
+        same = [c_ for c_ in calls_in(fn) if (c_.lineno, c_.col_offset) == (chk.lineno, chk.col_offset) and call_name(c_) == call_name(chk) and not getattr(stmt_of(c_), "_xv_call_marker", False)]
+        if len(same) != 1:
+            raise AnalysisError(f"{st}: cache check call not found again in the helper-transparent view")
+        chk = same[0]
         defs = df.all_defs(fn)
         cfg = CFG(fn)
         kind = (call_name(chk) or "").split(".")[-1]
